@@ -265,7 +265,7 @@ fn sx_s(s: &S) -> String {
 }
 
 // ---- the source text, in an arbitrary layout ----
-struct P<'a> { rng: &'a mut Rng, out: String }
+struct P<'a> { rng: &'a mut Rng, out: String, noblank: bool }
 impl<'a> P<'a> {
     /// separator between two tokens: never a blank line, never empty
     fn ws(&mut self) { let w = *self.rng.pick(&[" ", " ", " ", "  ", "\t", "\n", " \n", "\n\t"]); self.out.push_str(w); }
@@ -292,12 +292,15 @@ impl<'a> P<'a> {
             E::Paren(x) => { self.t("("); self.bl(); self.e(x); self.bl(); self.t(")"); }
             E::Sugar(x) => self.e(x),
             E::Table(false, fs) => {
+                // (no line break right behind the brace; an empty line may stand between two fields and before the closing brace:
+                // the table is still written on one line)
                 self.t("{"); self.bl();
                 for (i, f) in fs.iter().enumerate() {
-                    if i > 0 { let sep = if self.rng.chance(1, 4) { ";" } else { "," }; self.t(sep); self.ws(); }
+                    if i > 0 { let sep = if self.rng.chance(1, 4) { ";" } else { "," }; self.t(sep); if self.rng.chance(1, 8) { self.t("\n\n"); self.hb(); } else { self.ws(); } }
                     self.field(f);
                 }
                 if !fs.is_empty() && self.rng.chance(1, 4) { self.t(","); }
+                if !fs.is_empty() && self.rng.chance(1, 10) { self.t("\n \n"); }
                 self.bl(); self.t("}");
             }
             E::Table(true, fs) => {
@@ -351,6 +354,7 @@ impl<'a> P<'a> {
     /// the items of a block and its dangling comments; the caller has written the opening keyword and writes the closing one.
     /// [fresh]: nothing but blanks precedes on the current line (start of the file)
     fn block(&mut self, b: &B, fresh: bool) {
+        let noblank = std::mem::replace(&mut self.noblank, false);
         let mut fresh = fresh;          // true: we are at the start of a line
         let mut first = true;           // nothing of the block has been written yet: empty lines here are dropped
         for it in &b.items {
@@ -371,7 +375,8 @@ impl<'a> P<'a> {
             if !fresh { self.newline(*bl, false); } else if *bl { self.hb(); self.t("\n"); }
             self.own_comment(c); fresh = false; first = false;
         }
-        if !b.tail.is_empty() { self.newline(false, true); self.hb(); } else if fresh { self.hb(); } else { self.ws(); }
+        // (an empty line before the closing keyword is dropped by the formatter: it is not part of the tree)
+        if !b.tail.is_empty() { self.newline(false, true); self.hb(); } else if fresh { self.hb(); } else if !noblank && !b.items.is_empty() && self.rng.chance(1, 8) { self.t("\n"); self.hb(); self.t("\n"); self.hb(); } else { self.ws(); }
     }
     fn s(&mut self, s: &S) {
         match s {
@@ -380,7 +385,7 @@ impl<'a> P<'a> {
             S::Call(e) => self.e(e),
             S::Do(b) => { self.t("do"); self.block(b, false); self.t("end"); }
             S::While(c, b) => { self.t("while"); self.ws(); self.e(c); self.ws(); self.t("do"); self.block(b, false); self.t("end"); }
-            S::Repeat(b, c) => { self.t("repeat"); self.block(b, false); self.t("until"); self.ws(); self.e(c); }
+            S::Repeat(b, c) => { self.t("repeat"); self.noblank = true; self.block(b, false); self.t("until"); self.ws(); self.e(c); }   // (an empty line before `until` is kept: outside L0)
             S::If(c, t, e) => {
                 self.t("if"); self.ws(); self.e(c); self.ws(); self.t("then"); self.block(t, false);
                 let mut cur = e;
@@ -422,7 +427,7 @@ pub fn main(args: &[String]) {
         let mut rng = Rng(seed.wrapping_mul(0x9E3779B97F4A7C15) ^ (k as u64).wrapping_mul(0xD1B54A32D192ED03) ^ 0x10);
         let prog = { let mut g = G { rng: &mut rng, loops: 0, noml: 0, comok: false, argcom: false }; let mut b = g.block_t(0, true, 5, true); if b.items.is_empty() { let s = g.stmt(0, true); b.items.push(Item { lead: vec![], blank: false, s, trail: None }); } b };
         let tree = sx_b(&prog);
-        let src = { let mut p = P { rng: &mut rng, out: String::new() }; p.block(&prog, true); if !p.out.ends_with('\n') && p.rng.chance(3, 4) { p.t("\n"); } p.out };
+        let src = { let mut p = P { rng: &mut rng, out: String::new(), noblank: false }; p.block(&prog, true); if !p.out.ends_with('\n') && p.rng.chance(3, 4) { p.t("\n"); } p.out };
         if !parses(&src, syntax("Lua51")) { unparsed += 1; println!("UNPARSED g{} {}", k, hex(src.as_bytes())); continue; }
         for (win, spaces, width) in [(0, 0, 4), (1, 0, 4), (0, 1, 1 + rng.below(8)), (1, 1, 1 + rng.below(8))] {
             let style = *rng.pick(&["AutoPreferDouble", "AutoPreferSingle", "ForceDouble", "ForceSingle"]);
